@@ -137,8 +137,12 @@ class Canon:
                         self.inline_block(n, f)
                 self.inline_exprs(body, f)
             self.assign_forms(body)
+            self.match_ints(body)
+            self.while_loops(body)
+            self.fold_loops(body)
             self.collect_loops(body)
             self.iter_loops(body)
+            self.assign_forms(body)
         self.done.add(p)
 
     def _instance(self, f, call):
@@ -234,6 +238,8 @@ class Canon:
         for a read-only single-expression callee, evaluating it at the parameter's use is the same as at the call."""
         for n in _walk(a):
             k = n.get("k")
+            if k == "Def" and str(n.get("dk", "")).startswith(("Const", "AssocConst", "Static")):
+                continue
             if k in ("Lit", "Local", "Field", "Unary", "Cast", "Tup", "AddrOf", "Index", "Bind"):
                 if k == "AddrOf" and n.get("mut"):
                     return False
@@ -512,6 +518,208 @@ class Canon:
             n["r"] = rhs
             n["canon"] = "x = x op e"
             self.stats["assign_forms"] += 1
+
+    # ------------------------------------------------------------------ P8
+    def match_ints(self, body):
+        """`match s { 1 => A, 2 => B, _ => C }` on an integer s that is a plain local / parameter / field  ->
+        `if s == 1 { A } else if s == 2 { B } else { C }` (s has no side effects, so evaluating it per test is the same)."""
+        INTS = ("usize", "isize", "i32", "i64", "u32", "u64", "u8", "u16", "i8", "i16", "u128", "i128")
+        for n in list(_walk(body)):
+            if n.get("k") != "Match":
+                continue
+            sc = _strip(n["scrut"])
+            if str(sc.get("ty", "")) not in INTS or not self._pure(sc):
+                continue
+            arms = n.get("arms", [])
+            if len(arms) < 2 or any(a.get("guard") is not None for a in arms):
+                continue
+            lits, last = arms[:-1], arms[-1]
+            if last["pat"].get("k") != "Wild":
+                continue
+            if not all(a["pat"].get("k") == "PatExpr" and str(a["pat"].get("lit", "")).lstrip("-").isdigit() for a in lits):
+                continue
+            sp = n.get("sp") or [0, 0, 0, 0]
+            chain = last["body"]
+            for a in reversed(lits):
+                lit = {"k": "Lit", "v": str(a["pat"]["lit"]), "id": self._id(), "ty": sc.get("ty"), "sp": list(a["body"].get("sp") or sp)}
+                scc = copy.deepcopy(sc)
+                for x in _walk(scc):
+                    if x.get("sp"):
+                        x["sp"] = list(lit["sp"])
+                cond = {"k": "Binary", "op": "==", "l": scc, "r": lit, "id": self._id(), "ty": "bool", "sp": list(lit["sp"])}
+                chain = {"k": "If", "cond": cond, "then": a["body"], "else": chain, "id": self._id(), "ty": n.get("ty"), "sp": list(a["body"].get("sp") or sp)}
+            keep = {kk: n.get(kk) for kk in ("adj",)}
+            chain["sp"] = list(sp)
+            n.clear()
+            n.update(chain)
+            for kk, vv in keep.items():
+                if vv is not None:
+                    n[kk] = vv
+            n["canon"] = "match-int"
+            self.stats["match_ints"] = self.stats.get("match_ints", 0) + 1
+
+    # ------------------------------------------------------------------ P6
+    def while_loops(self, body):
+        """Counting `while` loops become `for` loops:
+             let mut i = lo; while i < hi { body; i += 1; }        ->  for i in lo..hi { body }
+             let mut i = hi; while i > lo { i -= 1; body }          ->  for i in (lo..hi).rev() { body }
+           when i is written nowhere else, the body has no `continue`, hi/lo are not written in the body (checked by the
+           engine's stability machinery later: here they must be side-effect free) and i is not used after the loop."""
+        for blk in [n for n in _walk(body) if n.get("k") == "Block"]:
+            st = blk.get("stmts", [])
+            tail = blk.get("expr")
+            items = list(st) + ([{"k": "Expr", "e": tail, "_tail": True}] if tail is not None else [])
+            for idx in range(1, len(items)):
+                ws = items[idx]
+                w = _strip(ws.get("e") or {}) if ws.get("k") in ("Semi", "Expr") else {}
+                if w.get("k") != "While":
+                    continue
+                # the counter: declared by a `let mut i = X` somewhere before in this block, not touched in between
+                c = _strip(w["cond"])
+                if c.get("k") != "Binary" or c.get("op") not in ("<", ">", "!=") or c.get("fn"):
+                    continue
+                l_, r_ = _strip(c["l"]), _strip(c["r"])
+                if l_.get("k") != "Local" or str(l_.get("ty", "")) != "usize":
+                    continue
+                iv = l_["v"]
+                decl = None
+                for j in range(idx - 1, -1, -1):
+                    sj = items[j]
+                    if sj.get("k") == "Let" and sj.get("pat", {}).get("k") == "Bind" and sj["pat"].get("v") == iv and sj.get("init") is not None:
+                        decl = (j, sj)
+                        break
+                    if any(x.get("k") == "Local" and x.get("v") == iv for x in _walk(sj)):
+                        break
+                if decl is None or not self._pure(r_) or not self._pure(decl[1]["init"]):
+                    continue
+                wb = w["body"]
+                if wb.get("k") != "Block" or wb.get("expr") is not None and _strip(wb["expr"]).get("ty") not in ("()", None):
+                    continue
+                bst = list(wb.get("stmts", []))
+                if wb.get("expr") is not None:
+                    bst.append({"k": "Expr", "e": wb["expr"]})
+                if not bst:
+                    continue
+                if any(x.get("k") == "Continue" for x in _walk(wb) ):
+                    continue
+
+                def is_step(s_, op):
+                    e_ = _strip(s_.get("e") or {}) if s_.get("k") in ("Semi", "Expr") else {}
+                    return e_.get("k") == "AssignOp" and e_.get("op") == op and _strip(e_["l"]).get("k") == "Local" and _strip(e_["l"])["v"] == iv and \
+                        _strip(e_["r"]).get("k") == "Lit" and _strip(e_["r"]).get("v") == "1"
+                writes = [x for x in _walk(wb) if x.get("k") in ("Assign", "AssignOp") and _strip(x["l"]).get("k") == "Local" and _strip(x["l"])["v"] == iv]
+                addr = [x for x in _walk(wb) if x.get("k") == "AddrOf" and x.get("mut") and _strip(x["e"]).get("k") == "Local" and _strip(x["e"])["v"] == iv]
+                if len(writes) != 1 or addr:
+                    continue
+                # used after the loop?
+                used_after = any(x.get("k") == "Local" and x.get("v") == iv for s2 in items[idx + 1:] for x in _walk(s2))
+                if used_after:
+                    continue
+                rev = None
+                if c["op"] in ("<", "!=") and is_step(bst[-1], "+="):
+                    rev, lo, hi, newbody = False, decl[1]["init"], r_, bst[:-1]
+                elif c["op"] == ">" and is_step(bst[0], "-="):
+                    rev, lo, hi, newbody = True, r_, decl[1]["init"], bst[1:]
+                if rev is None:
+                    continue
+                if c["op"] == "!=" and not (_strip(lo).get("k") == "Lit" and _strip(lo).get("v") == "0"):
+                    continue        # `i != hi` counts up to hi only when it starts at or below it
+                sp = w.get("sp") or [0, 0, 0, 0]
+                rng = {"k": "Range", "lo": copy.deepcopy(lo), "hi": copy.deepcopy(hi), "incl": False, "id": self._id(), "ty": "std::ops::Range<usize>", "sp": list(c.get("sp") or sp)}
+                it = rng if not rev else {"k": "MethodCall", "name": "rev", "fn": "std::iter::Iterator::rev", "fn_local": False, "recv": rng, "args": [],
+                                          "id": self._id(), "ty": "std::iter::Rev<std::ops::Range<usize>>", "sp": list(c.get("sp") or sp)}
+                newblk = {"k": "Block", "stmts": newbody, "id": wb.get("id"), "ty": "()", "sp": wb.get("sp")}
+                pat = dict(decl[1]["pat"], mut=False)
+                forn = {"k": "For", "pat": pat, "iter": it, "body": newblk, "id": w.get("id"), "ty": "()", "sp": sp, "canon": "while-loop"}
+                w.clear()
+                w.update(forn)
+                decl[1]["canon_dead"] = True
+                self.stats["while_loops"] = self.stats.get("while_loops", 0) + 1
+            # drop the now-dead counter declarations
+            if any(s_.get("canon_dead") for s_ in st):
+                blk["stmts"] = [s_ for s_ in st if not s_.get("canon_dead")]
+
+    # ------------------------------------------------------------------ P7
+    def fold_loops(self, body):
+        """`let v = SRC.fold(init, |acc, p| e);`  ->  `let mut v = init; for p in SRC { v = e[acc := v]; }` and the same for a
+        fold that is the value of the block or an operand of a statement (hoisted into a `let` first: SRC and the
+        closure only read)."""
+        for blk in [n for n in _walk(body) if n.get("k") == "Block"]:
+            out = []
+            changed = False
+            stmts = list(blk.get("stmts", []))
+            tail = blk.get("expr")
+            if tail is not None:
+                stmts.append({"k": "Expr", "e": tail, "_tail": True, "sp": tail.get("sp")})
+            for st in stmts:
+                folds = []
+                e_ = st.get("init") if st.get("k") == "Let" else st.get("e")
+                if e_ is not None:
+                    stack = [e_]
+                    while stack:
+                        x = stack.pop()
+                        if x.get("k") in ("Closure", "For", "While", "Loop", "If", "Match") or (x.get("k") == "Block" and (x.get("stmts") or x.get("m"))):
+                            continue
+                        if x.get("k") == "Binary" and x.get("op") in ("&&", "||"):
+                            continue
+                        if x.get("k") == "MethodCall" and x.get("name") == "fold" and x.get("fn") == "std::iter::Iterator::fold" and len(x.get("args", [])) == 2:
+                            cl = _strip(x["args"][1])
+                            if cl.get("k") == "Closure" and len(cl.get("params", [])) == 2 and cl["params"][0].get("k") == "Bind" and \
+                                    not any(y.get("k") in ("Ret", "Try") for y in _walk(cl["body"])) and self._pure(x["args"][0]):
+                                folds.append(x)
+                                continue
+                        stack.extend(_kids(x))
+                for x in folds:
+                    cl = _strip(x["args"][1])
+                    accp = cl["params"][0]
+                    direct = st.get("k") == "Let" and st["pat"].get("k") == "Bind" and _strip(st["init"]) is x
+                    sp = st.get("sp") or x.get("sp") or [0, 0, 0, 0]
+                    if direct:
+                        v, vname, vty = st["pat"]["v"], st["pat"].get("name"), st["pat"].get("ty")
+                    else:
+                        self.fresh += 1
+                        v, vname, vty = self.fresh, "__fold%d" % self.fresh, x.get("ty")
+                    # loop body: v = e[acc := v]
+                    bodye = cl["body"]
+                    for u in [y for y in _walk(bodye) if y.get("k") == "Local" and y.get("v") == accp["v"]]:
+                        u["v"] = v
+                        u["name"] = vname
+                    pre_stmts = []
+                    if bodye.get("k") == "Block" and bodye.get("expr") is not None and not bodye.get("m"):
+                        pre_stmts = list(bodye.get("stmts", []))        # `|acc, p| { let ..; acc + .. }`
+                        bodye = bodye["expr"]
+                    bsp = list(bodye.get("sp") or sp)
+                    asg = {"k": "Assign", "l": {"k": "Local", "v": v, "name": vname, "id": self._id(), "ty": vty, "sp": bsp}, "r": bodye, "id": self._id(), "ty": "()", "sp": bsp}
+                    src_it = x["recv"]
+                    s0 = _strip(src_it)
+                    if s0.get("k") == "MethodCall" and s0.get("name") == "into_iter" and not s0.get("args") and str(s0["recv"].get("ty", "")).lstrip("&mut ").startswith("std::vec::Vec<"):
+                        src_it = s0["recv"]          # `for p in v` is `for p in v.into_iter()`
+                    loop = {"k": "For", "pat": cl["params"][1], "iter": src_it,
+                            "body": {"k": "Block", "stmts": pre_stmts + [{"k": "Semi", "e": asg, "sp": bsp}], "id": self._id(), "ty": "()", "sp": bsp},
+                            "id": self._id(), "ty": "()", "sp": [sp[0], sp[1] - 0.25, sp[0], sp[1] - 0.2], "canon": "fold-loop"}
+                    let = {"k": "Let", "pat": {"k": "Bind", "v": v, "name": vname, "mut": True, "byref": False, "ty": vty}, "init": x["args"][0],
+                           "sp": [sp[0], sp[1] - 0.3, sp[0], sp[1] - 0.26], "canon": "fold-acc"}
+                    for y in _walk(let["init"]):
+                        if y.get("sp"):
+                            y["sp"] = list(let["sp"])
+                    out.append(let)
+                    out.append({"k": "Expr", "e": loop, "sp": list(loop["sp"])})
+                    changed = True
+                    if direct:
+                        st["_drop"] = True
+                    else:
+                        keep = {kk: x.get(kk) for kk in ("ty", "sp", "adj")}
+                        x.clear()
+                        x.update({"k": "Local", "v": v, "name": vname, "id": self._id()})
+                        for kk, vv in keep.items():
+                            if vv is not None:
+                                x[kk] = vv
+                if not st.get("_drop"):
+                    out.append(st)
+            if changed:
+                new_stmts = [s_ for s_ in out if not s_.get("_tail")]
+                blk["stmts"] = new_stmts
+                # (the tail expression node was rewritten in place)
 
     # ------------------------------------------------------------------ P4
     def collect_loops(self, body):
